@@ -4,7 +4,7 @@
    no theorem covers that evaluation; spec_C06 compares the crate's f64 with the exact tail
    (relative 10^-9), checks 0 <= p <= 1 and monotonicity in k on the crate's values, and the fold
    enrichment bit for bit (Flocq binary64). *)
-From HpoV Require Import Gen.Consts Model.Base Model.Group Model.Onto Model.Query Model.F64 Model.Enrich Proofs.C06P.
+From HpoV Require Import Gen.Consts Model.Base Model.Group Model.Onto Model.Query Model.F64 Model.Enrich Proofs.C06P Proofs.BinomP.
 
 (* SampleSet: size = number of terms; count(g) = number of links between g and the terms *)
 Theorem C06_counts : forall o k terms sz c, calculate_counts o k terms = Ok (sz, c) ->
@@ -26,15 +26,37 @@ Theorem C06_sf_at_max_is_zero : forall pop succ draws x, hg_min pop succ draws <
   sf_exact pop succ draws x = (0, 1).
 Proof. exact sf_exact_at_max. Qed.
 
-(* the recurrences the check executes agree with the definitional tail — BOUNDED: all populations
-   up to 22 with every K, n, x (evaluation of the finite domain); unproved beyond *)
-Theorem C06_executed_tail_agrees_bounded : forall pop succ draws x,
-  pop <= 22 -> succ <= pop -> draws <= pop -> x <= pop + 1 ->
-  sf_fast pop succ draws x = sf_exact pop succ draws x.
-Proof. exact sf_fast_agrees_small. Qed.
+(* the model's quotient n^(k) / k! is the binomial coefficient (Pascal's rule) *)
+Theorem C06_binomial : forall n k, binN (N.of_nat n) (N.of_nat k) = C n k.
+Proof. exact binN_is_binomial. Qed.
+
+(* Vandermonde: sum_i C(a,i) C(b,n-i) = C(a+b,n) — the hypergeometric probabilities sum to 1 *)
+Theorem C06_vandermonde : forall a b n, vdm a b n = C (a + b) n.
+Proof. exact vandermonde. Qed.
+
+(* THE EXACT P-VALUE LIES IN [0,1] for every population, K <= N, n <= N, and every k *)
+Theorem C06_exact_pvalue_in_unit_interval : forall P K n x, (K <= P)%nat -> (n <= P)%nat ->
+  let r := sf_exact (N.of_nat P) (N.of_nat K) (N.of_nat n) (N.of_nat x) in fst r <= snd r /\ 0 < snd r.
+Proof. exact sf_exact_in_unit_interval. Qed.
+
+(* at or below the lower end of the support the tail is the whole distribution (the code's
+   `x < min => 1` branch agrees with the sum) *)
+Theorem C06_tail_below_support_is_one : forall P K n lo, (K <= P)%nat -> (n <= P)%nat -> (lo <= n + K - P)%nat ->
+  sumN (fun i => C K i * C (P - K) (n - i)) lo (S (Nat.min K n) - lo) = C P n.
+Proof. exact tail_below_min_is_one. Qed.
+
+(* the recurrences the check executes (exact small multiplications / divisions) compute the
+   definitional tail, for EVERY population size *)
+Theorem C06_executed_tail_is_exact_tail : forall P K n x, (K <= P)%nat -> (n <= P)%nat ->
+  sf_fast (N.of_nat P) (N.of_nat K) (N.of_nat n) (N.of_nat x) = sf_exact (N.of_nat P) (N.of_nat K) (N.of_nat n) (N.of_nat x).
+Proof. exact sf_fast_is_sf_exact. Qed.
 
 Print Assumptions C06_counts.
-Print Assumptions C06_executed_tail_agrees_bounded.
+Print Assumptions C06_binomial.
+Print Assumptions C06_vandermonde.
+Print Assumptions C06_exact_pvalue_in_unit_interval.
+Print Assumptions C06_tail_below_support_is_one.
+Print Assumptions C06_executed_tail_is_exact_tail.
 Print Assumptions C06_exact_tail_antitone.
 Print Assumptions C06_sf_below_min_is_one.
 Print Assumptions C06_sf_at_max_is_zero.
